@@ -547,6 +547,8 @@ int main(int argc, char** argv){
             if(mine()){ RebuildSearch<1,0,double,true> r{three(1, 4, {0, 3, 7}, 2, false), rep, pg, depth - 1}; r.run(); }          // non-default (periodic) ordering
             if(mine()){ RebuildSearch<3,0,double,false> r{three(3, 3, {0, 27}, 1, false), rep, pg, 3}; r.run(); }
             if(thorough){
+                if(mine()){ RebuildSearch<1,0,double,false> r{three(1, 4, {0, 2, 3, 7}, 2, true), rep, pg, 4}; r.run(); }     // four particles
+                if(mine()){ RebuildSearch<1,0,double,false> r{three(1, 5, {0, 7, 15}, 2, false), rep, pg, 4}; r.run(); }
                 if(mine()){ RebuildSearch<2,0,double,false> r{three(2, 3, {0, 5, 15}, 1, true), rep, pg, depth}; r.run(); }
                 if(mine()){ RebuildSearch<3,0,double,true> r{three(3, 2, {0, 3, 7}, 2, false), rep, pg, depth}; r.run(); }
                 if(mine()){ RebuildSearch<3,0,double,false> r{three(3, 3, {0, 27, 63}, 2, false), rep, pg, 3}; r.run(); }
